@@ -408,6 +408,8 @@ def run(sess):
         _run(sess)
     finally:
         sess.decider.logic = prev_logic
+    from . import c09_seq
+    c09_seq.run(sess)
 
 
 def _run(sess):
@@ -513,7 +515,8 @@ META = {
                    'symmetric, transitive equality; equal => same hash (both hash paths); compare antisymmetric, transitive, Equal iff equals, and '
                    'equal to the exact mathematical order.',
     'bounds': f'every i32; big ints as {BIGW}-bit signed values with |n| < 2^{BIGW - 2}; every f64 bit pattern (NaNs, infinities, signed zeros, subnormals)',
-    'outside': 'strings, tuples, dicts, sets, structs; Value::equals pointer shortcut and recursion guard; sorted(); the dict/set lookup code that consumes the hash',
+    'outside': 'strings, dicts, sets, structs, hashing of tuples; Value::equals pointer shortcut and recursion guard (C15.stack_guard); sorted(); the dict/set lookup code that consumes the hash. '
+               'Sequence equality / ordering (equals_slice, compare_slice behind tuple and list comparison) IS covered for lengths <= 3 (quick) / 4 (thorough) with integer elements (C09.seq).',
     'assumptions': ['BigInt::to_f64 rounds to nearest even; BigInt::from_f64 truncates', 'Value::unpack_num returns the operand\'s NumRef; PointerI32::get returns the tagged int',
                     'f64::to_bits encoded as fresh bit-vector b with to_fp(b) == f'],
 }
@@ -527,6 +530,9 @@ def opnd_literal(o):
 
 
 def replay_witness(w, rp):
+    if w.get('kind') == 'seq':
+        from . import c09_seq
+        return c09_seq.replay_witness(w, rp)
     ops = w['ops']
     names = sorted(ops)
     vars_ = {}
